@@ -21,6 +21,7 @@
 //	load <kind>                    background load for the next run                -> skip
 //	run <seed> <goroutines> <n>    run scripts and load concurrently, wait for quiescence,
 //	                               print registry / cluster-local / advertised counts
+//	fdorder <bootstrap_us> <stall_us>   witness of the known finding F8 (see fdOrder) -> skip
 package conc
 
 import (
@@ -63,8 +64,8 @@ const (
 	// clock timeouts are only backstops for a worker that does not even get that far.
 	opTimeout    = 120 * time.Second
 	startTimeout = 300 * time.Second
-	maxLost    = 3
-	pikoModule = "github.com/andydunstall/piko"
+	maxLost      = 3
+	pikoModule   = "github.com/andydunstall/piko"
 )
 
 // ------------------------------------------------------------------------------ supervisor
@@ -676,6 +677,9 @@ func WorkerMain() {
 			case ws[0] == "load" && len(ws) == 2 && n != nil:
 				n.loads = append(n.loads, ws[1])
 				return "skip"
+			case ws[0] == "fdorder" && len(ws) == 3:
+				fdOrder(time.Duration(Atoi(ws[1]))*time.Microsecond, time.Duration(Atoi(ws[2]))*time.Microsecond, out)
+				return "skip"
 			case ws[0] == "run" && len(ws) == 4 && n != nil:
 				seed, _ := strconv.ParseInt(ws[1], 10, 64)
 				return n.run(seed, Atoi(ws[2]), Atoi(ws[3]), out)
@@ -692,6 +696,28 @@ func WorkerMain() {
 			os.Exit(3)
 		}
 	}
+}
+
+// fdOrder is the deterministic linearisation of a schedule between two production
+// goroutines, written with the failure detector's injectable entry points: Report (packet
+// listener goroutine) samples time.Now() BEFORE it takes the detector's mutex; if it is
+// stalled there while the liveness task (UpdateLiveness -> SuspicionLevel) evaluates the same
+// node for the first time, the window is created with the later timestamp and Report then
+// adds a NEGATIVE interval.  With a stall >= the bootstrap interval the mean is <= 0 and the
+// next liveness tick panics in arrivalWindow.Phi - on the scheduleFunc goroutine, which has
+// no recover.
+func fdOrder(bootstrap, stall time.Duration, out *wout) {
+	defer func() {
+		if r := recover(); r != nil {
+			out.fail("C20", "panic", fmt.Sprintf("%v: liveness tick after Report(t1) was applied behind SuspicionLevel(t1+%s) that created the window (bootstrap %s): %s",
+				r, stall, bootstrap, pikoFrames(string(debug.Stack()))))
+		}
+	}()
+	fd := pgossip.VNewAccrualFD(bootstrap, 50)
+	t1 := time.Unix(1700000000, 0)                        // Report: timestamp := time.Now() … stalled before d.mu.Lock()
+	_ = fd.SuspicionLevelAt("p", t1.Add(stall))           // liveness task: no window yet -> created at t1+stall
+	fd.ReportWithTimestamp("p", t1)                       // Report resumes: interval = -stall
+	_ = fd.SuspicionLevelAt("p", t1.Add(stall+bootstrap)) // next liveness tick
 }
 
 func newNode(id, proxy, admin string) *node {
@@ -934,17 +960,12 @@ func (n *node) roles(eps []string) map[string]role {
 			}
 			_ = sum
 		},
-		// liveness evaluation outside UpdateLiveness (reads only: production has a single
-		// reporter, the packet goroutine)
+		// liveness evaluation outside UpdateLiveness.  Reads only: in production Report has a
+		// single caller (the packet goroutine) and Remove is only called by RemoveExpiredAt.
 		"fd": func(r *rand.Rand, nops int, out *wout) {
 			for i := 0; i < nops; i++ {
 				n.prog.Add(1)
-				p := peerIDs[r.Intn(4)]
-				if r.Intn(10) == 0 {
-					n.fd.Remove(p)
-				} else {
-					_ = n.fd.SuspicionLevel(p)
-				}
+				_ = n.fd.SuspicionLevel(peerIDs[r.Intn(4)])
 			}
 		},
 	}
